@@ -350,10 +350,30 @@ def rule_R5(ctx, f):
         ctx.ob(rid, "Registry::%s|under-lock" % m, ok, "Registry::%s must run RegistryCore::%s on the %s guard of self.r, once" % (m, m, lock.split("::")[1]), site=b.raw["span"]["at"])
 
 
+def _as(ctx, rid, fn):
+    """Run rules of another property module and record their obligations under rule id `rid` of this property."""
+    sub = type(ctx)(ctx.prop, tier=ctx.tier, repo=ctx.repo, quiet=True)
+    sub._facts, sub._harness = ctx._facts, ctx._harness
+    fn(sub)
+    for o in sub.obligations:
+        o = dict(o)
+        orig = o["key"].split("|", 1)
+        o["key"] = "%s.%s|%s:%s" % (ctx.prop, rid, orig[0].split(".", 1)[1], orig[1])
+        o["rule"] = "%s.%s" % (ctx.prop, rid)
+        ctx.obligations.append(o)
+    ctx.functions_analysed |= sub.functions_analysed
+
+
 def run(ctx):
     f = ctx.facts("default")
     for rid, fn in (("R1", rule_R1), ("R2", rule_R2), ("R3", rule_R3), ("R4", rule_R4), ("R5", rule_R5)):
         ctx.run_rule(rid, fn, f)
+    # admission compares Desc.id / Desc.dim_hash: "equals a registered descriptor" is exact only if the identity is structural (rules of C15)
+    from . import C15
+    db = f.body(C15.D)
+    if ctx.anchor("R6", "Desc::new", db):
+        ctx.rule("R6", "descriptor identity is structural (shared with C15.R1-R3): separators, ordered hash inputs, id = hash(fq_name, const values in name order), dim = hash(help, label names)")
+        ctx.run_rule("R6", lambda c: _as(c, "R6", lambda s: (C15.rule_R1(s, f, db), C15.rule_R2(s, f, db), C15.rule_R3(s, f, db))))
     if ctx.tier == "thorough":
         for cfgname in ("plain", "nightlyproc"):
             g = ctx.facts(cfgname)
